@@ -78,9 +78,10 @@ def lag(size=1, data_type='obj'):
                 if isinstance(i, rs.OnNextMux):
                     q = i.store.get_state(state, i.key)
                     q.append(i.item)
-                    observer.on_next(i._replace(item=(q[0], i.item)))
+                    lag_item = q[0]
                     if len(q) > size:
                         q.popleft()
+                    observer.on_next(i._replace(item=(lag_item, i.item)))
 
                 elif isinstance(i, rs.OnCreateMux):
                     i.store.add_key(state, i.key)
